@@ -50,7 +50,7 @@ GLOBAL_NAMES = {
     'int': TypeVal('int'), 'float': TypeVal('float'), 'bool': TypeVal('bool'), 'list': TypeVal('list'),
     'str': TypeVal('str'), 'tuple': TypeVal('tuple'), 'dict': TypeVal('dict'), 'object': TypeVal('object'),
     'np.ndarray': TypeVal('ndarray'), 'np.int32': TypeVal('int'), 'np.int64': TypeVal('int'),
-    'np.float32': TypeVal('float'), 'np.float64': TypeVal('float'),
+    'np.float32': TypeVal('float'), 'np.float64': TypeVal('float'), 'np.integer': TypeVal('int'), 'np.floating': TypeVal('float'),
     'np.newaxis': NONE, 'np.pi': None, 'ValueError': TypeVal('ValueError'),
 }
 PI = z3.Real('pi')
